@@ -168,7 +168,8 @@ def run_property(mod, prop, tier, seed, t0, only=None):
     native_res = []
     if native_cases:
         try:
-            native_res = engine.run_native(native_cases)
+            # wall-clock limit of the native subprocess: generous (a loaded machine must not turn a green check into a checker error)
+            native_res = engine.run_native(native_cases, timeout=1800 if tier == "quick" else 7200)
         except Exception as e:
             checker_errors.append(f"native runner: {e}")
             native_res = [{"ok": None, "error": "runner"}] * len(native_cases)
